@@ -390,4 +390,271 @@ theorem pairRecord_ren (c : Cls) (cols : List (Str × Nat)) (kvs : List (Str × 
   have := Ren_of_RecAcc c h (w := [' ']) (Ws_cons (by decide) Ws_nil)
   simpa using this
 
+/-! records: only scalars inside, so `prune`/`dropEmptyIf` leave them alone -/
+
+theorem scalar_prune {v : Val} (h : isPairScalar v = true) : prune v = v ∧ isEmptyContainer v = false := by
+  cases v <;> simp [isPairScalar, presWidth, prune, isEmptyContainer] at h ⊢
+
+theorem scalar_erase {v : Val} (h : isPairScalar v = true) : erase v = v := by
+  cases v <;> simp [isPairScalar, presWidth, erase] at h ⊢
+
+theorem scalar_ren {v : Val} (h : isPairScalar v = true) (hw : wf v = true) : Ren v (scalarText v) := by
+  cases v <;> simp [isPairScalar, presWidth, Ren, scalarText, wf] at h hw ⊢
+  exact hw
+
+theorem pruneKvs_scalars : ∀ (kvs : List (Str × Val)), (∀ p ∈ kvs, isPairScalar p.2 = true) →
+    pruneKvs kvs = kvs
+  | [], _ => rfl
+  | (k, v) :: rest, h => by
+    have hv := scalar_prune (h (k, v) (by simp))
+    simp only [pruneKvs, hv.1, hv.2, Bool.false_eq_true, if_false]
+    rw [pruneKvs_scalars rest (fun p hp => h p (by simp [hp]))]
+
+theorem colOrder_nil_kvs : ∀ (cols : List (Str × Nat)), colOrder cols [] = []
+  | [] => rfl
+  | (k, w) :: cols => by simp [colOrder, Val.lookup, colOrder_nil_kvs cols]
+
+theorem colOrder_mem : ∀ (cols : List (Str × Nat)) (kvs : List (Str × Val)) (p : Str × Val),
+    p ∈ colOrder cols kvs → p ∈ kvs
+  | [], _, _, h => by simp [colOrder] at h
+  | (k, w) :: cols, kvs, p, h => by
+    simp only [colOrder] at h
+    cases hl : Val.lookup k kvs with
+    | none => rw [hl] at h; exact colOrder_mem cols kvs p h
+    | some v =>
+      rw [hl] at h
+      rcases List.mem_cons.1 h with h | h
+      · subst h; exact lookup_mem kvs k v hl
+      · exact colOrder_mem cols kvs p h
+
+theorem colOrder_ne_nil : ∀ (cols : List (Str × Nat)) (kvs : List (Str × Val)) (k : Str) (v : Val),
+    k ∈ colKeys cols → Val.lookup k kvs = some v → colOrder cols kvs ≠ []
+  | [], _, _, _, h, _ => by simp [colKeys] at h
+  | (k', w) :: cols, kvs, k, v, h, hl => by
+    simp only [colOrder]
+    cases hl' : Val.lookup k' kvs with
+    | some v' => simp
+    | none =>
+      simp only []
+      simp only [colKeys, List.map_cons, List.mem_cons] at h
+      rcases h with h | h
+      · subst h; rw [hl] at hl'; cases hl'
+      · exact colOrder_ne_nil cols kvs k v h hl
+
+theorem colOrder_isEmpty {cols : List (Str × Nat)} {kvs : List (Str × Val)}
+    (h : ∀ p ∈ kvs, p.1 ∈ colKeys cols) : (colOrder cols kvs).isEmpty = kvs.isEmpty := by
+  cases kvs with
+  | nil => simp [colOrder_nil_kvs]
+  | cons p rest =>
+    obtain ⟨k, v⟩ := p
+    have := colOrder_ne_nil cols ((k, v) :: rest) k v (h (k, v) (by simp)) (by simp [Val.lookup])
+    cases hc : colOrder cols ((k, v) :: rest) with
+    | nil => exact absurd hc this
+    | cons a b => rfl
+
+/-- a record and its column-ordered copy are dropped together, and neither is changed by
+`skip_empty_arrays` when it stays -/
+theorem rec_facts {cols : List (Str × Nat)} {c : Cls} {kvs : List (Str × Val)}
+    (h : ∀ p ∈ kvs, isPairScalar p.2 = true ∧ p.1 ∈ colKeys cols) (o : Opts) :
+    isEmptyContainer (prune (.dict c (colOrder cols kvs))) = kvs.isEmpty ∧
+    isEmptyContainer (prune (.dict c kvs)) = kvs.isEmpty ∧
+    dropEmptyIf o (.dict c (colOrder cols kvs)) = .dict c (colOrder cols kvs) ∧
+    dropEmptyIf o (.dict c kvs) = .dict c kvs := by
+  have h1 : pruneKvs kvs = kvs := pruneKvs_scalars kvs (fun p hp => (h p hp).1)
+  have h2 : pruneKvs (colOrder cols kvs) = colOrder cols kvs :=
+    pruneKvs_scalars _ (fun p hp => (h p (colOrder_mem cols kvs p hp)).1)
+  have h3 := colOrder_isEmpty (cols := cols) (kvs := kvs) (fun p hp => (h p hp).2)
+  refine ⟨?_, ?_, ?_, ?_⟩
+  · simp only [prune, h2]
+    cases hc : colOrder cols kvs <;> simp [hc, isEmptyContainer] at h3 ⊢ <;> exact h3
+  · simp only [prune, h1]
+    cases kvs <;> simp [isEmptyContainer]
+  · unfold dropEmptyIf; split <;> simp [prune, h2]
+  · unfold dropEmptyIf; split <;> simp [prune, h1]
+
+theorem wfK_mem : ∀ (kvs : List (Str × Val)), wfK kvs = true → ∀ p ∈ kvs, wf p.2 = true
+  | [], _, _, hp => by cases hp
+  | (k, v) :: rest, h, p, hp => by
+    simp only [wfK, Bool.and_eq_true] at h
+    rcases List.mem_cons.1 hp with hp | hp
+    · subst hp; exact h.1
+    · exact wfK_mem rest h.2 p hp
+
+theorem wfL_mem : ∀ (xs : List Val), wfL xs = true → ∀ x ∈ xs, wf x = true
+  | [], _, _, hp => by cases hp
+  | y :: rest, h, x, hp => by
+    simp only [wfL, Bool.and_eq_true] at h
+    rcases List.mem_cons.1 hp with hp | hp
+    · subst hp; exact h.1
+    · exact wfL_mem rest h.2 x hp
+
+/-- **the loop of the pair layout** is a rendering accumulator of the column-ordered records
+(minus the empty ones under `skip_empty_arrays`) -/
+theorem pairBody_acc (o : Opts) (lvl : Nat) (cols : List (Str × Nat)) :
+    ∀ (xs : List Val), (∀ x ∈ xs, RecOk cols x) → (∀ x ∈ xs, wf x = true) →
+    ∀ (acc : Str) (done : List Val), AccL done acc →
+      AccL (done ++ dropL o (xs.map (orderRec cols))) (pairBody o lvl cols xs acc)
+  | [], _, _, acc, done, ha => by
+    have : dropL o [] = [] := by unfold dropL; split <;> simp [pruneList]
+    simpa [pairBody, this] using ha
+  | x :: xs, hok, hwf, acc, done, ha => by
+    obtain ⟨c, kvs, rfl, hk⟩ := hok x (by simp)
+    have hok' : ∀ y ∈ xs, RecOk cols y := fun y hy => hok y (by simp [hy])
+    have hwf' : ∀ y ∈ xs, wf y = true := fun y hy => hwf y (by simp [hy])
+    obtain ⟨f1, _, f3, _⟩ := rec_facts (c := c) hk o
+    simp only [List.map_cons, orderRec, pairBody, recordKvs]
+    by_cases hskip : (o.skipEmpty && kvs.isEmpty) = true
+    · simp only [hskip, if_true]
+      simp only [Bool.and_eq_true] at hskip
+      rw [dropL_cons_drop _ hskip.1 (by rw [f1]; exact hskip.2)]
+      exact pairBody_acc o lvl cols xs hok' hwf' acc done ha
+    · simp only [hskip, Bool.false_eq_true, if_false]
+      have hkeep : ¬ (o.skipEmpty = true ∧ isEmptyContainer (prune (.dict c (colOrder cols kvs))) = true) := by
+        rw [f1]; simpa using hskip
+      rw [dropL_cons_keep _ hkeep, f3]
+      have hwx : wf (.dict c kvs) = true := hwf _ (by simp)
+      simp only [wf, Bool.and_eq_true] at hwx
+      have hr := pairRecord_ren c cols kvs
+        (fun p hp => scalar_ren (hk p hp).1 (wfK_mem kvs hwx.1 p hp))
+      have ha' := AccL_step ha hr (Ws_nlAt o (lvl + 1))
+      have := pairBody_acc o lvl cols xs hok' hwf' _ _ ha'
+      simpa using this
+
+/-! ### Part 3: for every option record `pretty` is a rendering of the column-ordered tree -/
+
+/-- which layout a list gets -/
+def pairSel (o : Opts) (xs : List Val) : Option (List (Str × Nat)) :=
+  if o.pairsOn then pairCols xs else Option.none
+
+theorem pretty_list_pair {o : Opts} {xs : List Val} {c0 : Str × Nat} {cols : List (Str × Nat)}
+    (h : pairSel o xs = some (c0 :: cols)) (lvl : Nat) (c : Cls) :
+    pretty o lvl (.list c xs) = closeUp o lvl '[' ']' (pairBody o lvl (c0 :: cols) xs []) := by
+  unfold pairSel at h
+  simp only [pretty, h]
+
+theorem pretty_list_general {o : Opts} {xs : List Val}
+    (h : pairSel o xs = Option.none ∨ pairSel o xs = some []) (lvl : Nat) (c : Cls) :
+    pretty o lvl (.list c xs) = closeUp o lvl '[' ']' (prettyItems o lvl xs []) := by
+  unfold pairSel at h
+  rcases h with h | h <;> simp only [pretty, h]
+
+theorem pairOrder_list_pair {o : Opts} {xs : List Val} {c0 : Str × Nat} {cols : List (Str × Nat)}
+    (h : pairSel o xs = some (c0 :: cols)) (c : Cls) :
+    pairOrder o (.list c xs) = .list c (xs.map (orderRec (c0 :: cols))) := by
+  unfold pairSel at h
+  simp only [pairOrder, h]
+
+theorem pairOrder_list_general {o : Opts} {xs : List Val}
+    (h : pairSel o xs = Option.none ∨ pairSel o xs = some []) (c : Cls) :
+    pairOrder o (.list c xs) = .list c (pairOrderL o xs) := by
+  unfold pairSel at h
+  rcases h with h | h <;> simp only [pairOrder, h]
+
+theorem pairSel_cases (o : Opts) (xs : List Val) :
+    (pairSel o xs = Option.none ∨ pairSel o xs = some []) ∨
+    (∃ c0 cols, pairSel o xs = some (c0 :: cols) ∧ pairCols xs = some (c0 :: cols)) := by
+  unfold pairSel
+  split
+  · cases h : pairCols xs with
+    | none => exact Or.inl (Or.inl rfl)
+    | some cols =>
+      cases cols with
+      | nil => exact Or.inl (Or.inr rfl)
+      | cons c0 cols => exact Or.inr ⟨c0, cols, rfl, rfl⟩
+  · exact Or.inl (Or.inl rfl)
+
+mutual
+/-- `pretty` returns nothing when `skip_empty_arrays` drops the item, else a JSON text of the
+column-ordered tree — whatever the options, pair layout included -/
+theorem jpretty_ren (o : Opts) : ∀ (t : Val), wf t = true → ∀ (lvl : Nat),
+    lvl + depth t ≤ 111 → Out o (pairOrder o t) (pretty o lvl t)
+  | .none, _, lvl, _ => by
+    simp only [pretty, pairOrder]
+    exact Out_scalar o _ (by simp [prune, isEmptyContainer]) (by unfold dropEmptyIf; split <;> simp [prune, Ren])
+  | .bool b, _, lvl, _ => by
+    simp only [pretty, pairOrder]
+    exact Out_scalar o _ (by simp [prune, isEmptyContainer]) (by unfold dropEmptyIf; split <;> simp [prune, Ren])
+  | .int i, _, lvl, _ => by
+    simp only [pretty, pairOrder]
+    exact Out_scalar o _ (by simp [prune, isEmptyContainer]) (by unfold dropEmptyIf; split <;> simp [prune, Ren])
+  | .str x, _, lvl, _ => by
+    simp only [pretty, pairOrder]
+    exact Out_scalar o _ (by simp [prune, isEmptyContainer]) (by unfold dropEmptyIf; split <;> simp [prune, Ren])
+  | .flt r, hw, lvl, _ => by
+    simp only [pretty, pairOrder]
+    simp only [wf] at hw
+    exact Out_scalar o _ (by simp [prune, isEmptyContainer])
+      (by unfold dropEmptyIf; split <;> simp [prune, Ren, scalarText, hw])
+  | .list c xs, hw, lvl, hd => by
+    simp only [wf] at hw
+    simp only [depth] at hd
+    rcases pairSel_cases o xs with hg | ⟨c0, cols, hsel, hcols⟩
+    · rw [pretty_list_general hg, pairOrder_list_general hg]
+      apply Out_of_AccL
+      have := jitems_ren o xs hw lvl [] [] (by omega) (by omega) (by simp [AccL])
+      simpa using this
+    · rw [pretty_list_pair hsel, pairOrder_list_pair hsel]
+      apply Out_of_AccL
+      have hinv := pairCols_inv hcols
+      have := pairBody_acc o lvl (c0 :: cols) xs hinv.1 (wfL_mem xs hw) [] [] (by simp [AccL])
+      simpa using this
+  | .dict c kvs, hw, lvl, hd => by
+    simp only [pretty, pairOrder]
+    apply Out_of_AccK
+    simp only [wf, Bool.and_eq_true] at hw
+    simp only [depth] at hd
+    have := jkvs_ren o kvs hw.1 lvl (condense kvs) [] [] (by omega) (by omega) (by simp [AccK])
+    simpa using this
+theorem jitems_ren (o : Opts) : ∀ (xs : List Val), wfL xs = true →
+    ∀ (lvl : Nat) (acc : Str) (done : List Val), lvl < 111 → lvl + 1 + depthL xs ≤ 111 →
+    AccL done acc → AccL (done ++ dropL o (pairOrderL o xs)) (prettyItems o lvl xs acc)
+  | [], _, lvl, acc, done, _, _, ha => by
+    have : dropL o [] = [] := by unfold dropL; split <;> simp [pruneList]
+    simpa [prettyItems, pairOrderL, this] using ha
+  | x :: xs, hw, lvl, acc, done, hl, hd, ha => by
+    simp only [wfL, Bool.and_eq_true] at hw
+    simp only [depthL] at hd
+    have hx := jpretty_ren o x hw.1 (lvl + 1) (by omega)
+    simp only [prettyItems, hl, ↓reduceIte, pairOrderL]
+    rcases hx with ⟨hs, he, hnil⟩ | ⟨hne, hr⟩
+    · rw [hnil, dropL_cons_drop _ hs he]
+      simp only [hs, List.isEmpty_nil, Bool.and_self, ↓reduceIte]
+      exact jitems_ren o xs hw.2 lvl acc done hl (by omega) ha
+    · have hsub : (pretty o (lvl + 1) x).isEmpty = false := by
+        have := Ren_ne_nil hr
+        cases h : pretty o (lvl + 1) x <;> simp_all
+      rw [dropL_cons_keep _ hne]
+      simp only [hsub, Bool.and_false, Bool.false_eq_true, ↓reduceIte]
+      have ha' := AccL_step ha hr (Ws_nlAt o (lvl + 1))
+      have := jitems_ren o xs hw.2 lvl _ _ hl (by omega) ha'
+      simpa [joinItem_eq] using this
+theorem jkvs_ren (o : Opts) : ∀ (kvs : List (Str × Val)), wfK kvs = true →
+    ∀ (lvl : Nat) (cond : Bool) (acc : Str) (done : List (Str × Val)), lvl < 111 → lvl + 1 + depthK kvs ≤ 111 →
+    AccK done acc → AccK (done ++ dropK o (pairOrderK o kvs)) (prettyKvs o lvl cond kvs acc)
+  | [], _, lvl, cond, acc, done, _, _, ha => by
+    have : dropK o [] = [] := by unfold dropK; split <;> simp [pruneKvs]
+    simpa [prettyKvs, pairOrderK, this] using ha
+  | (k, v) :: kvs, hw, lvl, cond, acc, done, hl, hd, ha => by
+    simp only [wfK, Bool.and_eq_true] at hw
+    simp only [depthK] at hd
+    have hx := jpretty_ren o v hw.1 (lvl + 1) (by omega)
+    simp only [prettyKvs, hl, ↓reduceIte, pairOrderK]
+    rcases hx with ⟨hs, he, hnil⟩ | ⟨hne, hr⟩
+    · rw [hnil, dropK_cons_drop _ hs he]
+      simp only [hs, List.isEmpty_nil, Bool.and_self, ↓reduceIte]
+      exact jkvs_ren o kvs hw.2 lvl cond acc done hl (by omega) ha
+    · have hsub : (pretty o (lvl + 1) v).isEmpty = false := by
+        have := Ren_ne_nil hr
+        cases h : pretty o (lvl + 1) v <;> simp_all
+      rw [dropK_cons_keep _ hne]
+      simp only [hsub, Bool.and_false, Bool.false_eq_true, ↓reduceIte]
+      have hw' : Ws (if cond then sp o else nlAt o (lvl + 1)) := by
+        split
+        · exact Ws_sp o
+        · exact Ws_nlAt o (lvl + 1)
+      have ha' := AccK_step (k := k) ha hr hw' (Ws_sp o)
+      have := jkvs_ren o kvs hw.2 lvl cond _ _ hl (by omega) ha'
+      simpa [joinItem_eq] using this
+end
+
 end N0.Json
